@@ -2,6 +2,7 @@ import TF.Proofs.BField
 import TF.Proofs.BFieldModel
 import TF.Proofs.BFieldZMod
 import TF.Proofs.XField
+import TF.Proofs.Shah
 /-!
 # C01 — base and extension field arithmetic is exact and canonical
 
@@ -163,5 +164,20 @@ theorem xfe_add_sub_exact (x y : XF.X3) (hx : TF.XFp.canon3 x) (hy : TF.XFp.cano
     (TF.XFp.canon3 (XF.add x y) ∧ TF.XFp.ev t (XF.add x y) = TF.XFp.ev t x + TF.XFp.ev t y) ∧
     (TF.XFp.canon3 (XF.sub x y) ∧ TF.XFp.ev t (XF.sub x y) = TF.XFp.ev t x - TF.XFp.ev t y) :=
   ⟨TF.XFp.add_coeffs x y hx hy t, TF.XFp.sub_coeffs x y hx hy t⟩
+
+/-- `X³ − X + 1` has no root in `F_p`, hence is irreducible: the extension is a **field** -/
+theorem shah_polynomial_irreducible :
+    Irreducible (Polynomial.X^3 - Polynomial.X + 1 : Polynomial (ZMod 18446744069414584321)) :=
+  TF.Shah.shah_irreducible
+
+/-- extension field: every non-zero element (canonical triple) has exactly one multiplicative inverse with respect to
+    the product of the specification `TF.Spec.xmul` (the product formula of `XFieldElement::mul` on values) -/
+theorem xfe_inverse_exists_unique (x : TF.Spec.X3) (hx : TF.Shah.canon3 x) (hnz : x ≠ TF.Spec.xzero) :
+    (∃ y, TF.Shah.canon3 y ∧ TF.Spec.xmul x y = TF.Spec.xone) ∧
+    (∀ y₁ y₂, TF.Shah.canon3 y₁ → TF.Shah.canon3 y₂ → TF.Spec.xmul x y₁ = TF.Spec.xone →
+      TF.Spec.xmul x y₂ = TF.Spec.xone → y₁ = y₂) :=
+  ⟨TF.Shah.spec_inverse_exists x hx hnz, fun y₁ y₂ h₁ h₂ e₁ e₂ => TF.Shah.spec_inverse_unique x y₁ y₂ hx hnz h₁ h₂ e₁ e₂⟩
+example : TF.Shah.canon3 (1, 2, 3) ∧ ((1, 2, 3) : TF.Spec.X3) ≠ TF.Spec.xzero := by
+  refine ⟨⟨by decide, by decide, by decide⟩, by decide⟩
 
 end TF.C01
